@@ -588,7 +588,18 @@ fn run_case(c: &Value) -> Value {
         }
         true
     };
-    let stats = if let Some(p) = replay {
+    // warm-up: the first execution in a process may differ from all later ones (lazily built globals,
+    // a process-lifetime cache in the code under test); it is judged like any other execution, but it is
+    // not one of the executions sampled for the determinism re-check, and the search starts after it
+    {
+        let ex = run(&[]);
+        let sched_v: Vec<usize> = ex.trace.iter().map(|s| s.chosen).collect();
+        judge(&ex, &sched_v);
+        recheck.borrow_mut().clear();
+    }
+    let stats = if first_viol.borrow().is_some() {
+        sched::ExploreStats { schedules: 1, steps: 0, max_preemptions_used: 0, blocked_lock_schedules: 0, capped: false }
+    } else if let Some(p) = replay {
         let ex = run(&p);
         let sched_v: Vec<usize> = ex.trace.iter().map(|s| s.chosen).collect();
         judge(&ex, &sched_v);
